@@ -7,6 +7,8 @@ not pin the equality instant); everything one grid step away is determinate.
 
 from __future__ import annotations
 
+import math
+
 
 class BreakerModel:
     """Transcribes C06/C07.  step_* return the SET of allowed observable results."""
@@ -130,14 +132,27 @@ class BudgetModel:
         self.window = window
         self.grants = []  # times, one per token
 
+    def _cmp(self, now, t):
+        """-1: younger than the window, 0: at the boundary, +1: older. "At the boundary" includes ages that differ from the window by
+        rounding only: the library compares `stamp <= now - window`, the model `now - stamp` with `window`, and for readings that are not
+        dyadic the two subtractions round differently (a few ulps of the clock reading)."""
+        age = now - t
+        try:
+            tol = 4 * math.ulp(max(abs(float(now)), abs(float(t)), abs(float(self.window))))
+        except (OverflowError, TypeError, ValueError):
+            tol = 0
+        if abs(age - self.window) <= tol:
+            return 0
+        return -1 if age < self.window else 1
+
     def live(self, now):
         lo = hi = 0
         for t in self.grants:
-            age = now - t
-            if age < self.window:
+            c = self._cmp(now, t)
+            if c < 0:
                 lo += 1
                 hi += 1
-            elif age == self.window:
+            elif c == 0:
                 hi += 1
         return lo, hi
 
@@ -156,10 +171,10 @@ class BudgetModel:
         if observed and hi + cost > self.max:
             # granted although the boundary tokens, if still live, would have filled the window:
             # the implementation treated them as expired
-            self.grants = [t for t in self.grants if now - t < self.window]
+            self.grants = [t for t in self.grants if self._cmp(now, t) < 0]
         else:
             # otherwise the observation does not tell; tokens of age == window stay ambiguous for this instant
-            self.grants = [t for t in self.grants if now - t <= self.window]
+            self.grants = [t for t in self.grants if self._cmp(now, t) <= 0]
         if observed:
             self.grants.extend([now] * cost)
 
